@@ -348,6 +348,7 @@ func (mab *memoryAddrBook) ConsumePeerRecord(recordEnvelope *record.Envelope, tt
 
 	mab.mu.Lock()
 	defer mab.mu.Unlock()
+	mab.purgeExpiredUnlocked(rec.PeerID)
 
 	// ensure seq is greater than or equal to the last received
 	lastState, found := mab.signedPeerRecords[rec.PeerID]
@@ -411,6 +412,20 @@ func prevSignedAddrs(s *peerRecordState) []ma.Multiaddr {
 	return pr.Addrs
 }
 
+// purgeExpiredUnlocked drops p's expired addresses that the periodic gc has
+// not collected yet (and p's signed peer record when no address is left), so
+// that a write never treats an expired entry, or the record of a peer whose
+// addresses have all expired, as present.
+func (mab *memoryAddrBook) purgeExpiredUnlocked(p peer.ID) {
+	now := mab.clock.Now()
+	for _, a := range mab.addrs.Addrs[p] {
+		if a.ExpiredBy(now) {
+			mab.addrs.Delete(a)
+		}
+	}
+	mab.maybeDeleteSignedPeerRecordUnlocked(p)
+}
+
 func (mab *memoryAddrBook) maybeDeleteSignedPeerRecordUnlocked(p peer.ID) {
 	if len(mab.addrs.Addrs[p]) == 0 {
 		delete(mab.signedPeerRecords, p)
@@ -458,6 +473,7 @@ func (mab *memoryAddrBook) addAddrs(p peer.ID, addrs []ma.Multiaddr, ttl time.Du
 	mab.mu.Lock()
 	defer mab.mu.Unlock()
 
+	mab.purgeExpiredUnlocked(p)
 	mab.addAddrsUnlocked(p, addrs, ttl)
 }
 
@@ -531,6 +547,7 @@ func (mab *memoryAddrBook) SetAddrs(p peer.ID, addrs []ma.Multiaddr, ttl time.Du
 	defer mab.mu.Unlock()
 
 	defer mab.maybeDeleteSignedPeerRecordUnlocked(p)
+	mab.purgeExpiredUnlocked(p)
 
 	exp := mab.clock.Now().Add(ttl)
 	for _, addr := range addrs {
@@ -585,6 +602,7 @@ func (mab *memoryAddrBook) UpdateAddrs(p peer.ID, oldTTL time.Duration, newTTL t
 	defer mab.mu.Unlock()
 
 	defer mab.maybeDeleteSignedPeerRecordUnlocked(p)
+	mab.purgeExpiredUnlocked(p)
 
 	exp := mab.clock.Now().Add(newTTL)
 	for _, a := range mab.addrs.Addrs[p] {
